@@ -144,6 +144,24 @@ def corr_intr(n_quick, n_thorough):
     return run
 
 
+def corr_c14(ctx, chk, broken):
+    """C14: every slot (R and I are part of the compared state), plus Steps that ACCEPT or refuse a request: R must not move when a
+    request is accepted (no opcode fetch happens).  Mode-0 deviations that are the recorded known finding belong to C06 and are dropped."""
+    out, cov = corr_slots(3, 250)(ctx, chk, broken)
+    n = 8000 if ctx.tier == 'thorough' else 800
+    vectors = chk.gen_vectors('intr', ['-seed', str(ctx.seed + 3), '-n', str(n)])
+    dis, stats, go = chk.correspond(ctx, vectors, want_spec=True, extra_streams=('kf',))
+    kf_bad = {vid for (st, vid, v, g, o) in dis if st == 'kf'}
+    for (st, vid, v, g, o) in dis:
+        if st == 'kf' or (st == 'spec' and vid not in kf_bad and is_im0_data(v)):
+            continue
+        out.append({'stream': st, 'id': vid, 'vector': v, 'real': g, 'other': o})
+    cov['evaluations'] = cov.get('evaluations', 0) + stats.get('vectors', 0)
+    cov.setdefault('correspondence', {})['interrupt_vectors'] = stats.get('vectors', 0)
+    cov['rule'] = cov.get('rule', '') + ' | plus 1-2 Steps from states with a pending request (kind x IM x IFF1 x IFF2 x halted): an accepting Step leaves IR alone'
+    return out, cov
+
+
 def corr_stream(kinds, want_spec=True, go_panic_is_violation=False, rule='', go_timeout_is_violation=False):
     """kinds: list of (generator kind, n_quick, n_thorough, extra args)"""
     def run(ctx, chk, broken):
@@ -714,7 +732,7 @@ PROPS = {
         'targets': ['Z80.Props.C01', 'Z80.Props.C01Frame'],
         'audit_extra': ['C01Frame'],
         'count': ALL_OBL + ['Z80/Props/C01.lean', 'Z80/Props/C01Frame.lean', 'Z80/Proofs/Decoded.lean', 'Z80/Proofs/Frame.lean', 'Z80/Proofs/Frame2.lean', 'Z80/Proofs/Mirror.lean', 'Z80/Proofs/OblB/*.lean', 'Z80/Proofs/TablesB/*.lean', 'Z80/Proofs/BusLemmas.lean', 'Z80/Proofs/StepB.lean', 'Z80/Proofs/IM0B.lean', 'Z80/Proofs/FrameB.lean'],
-        'correspond': corr_slots(3, 40),
+        'correspond': corr_slots(3, 250),
         'assumptions': ['user memory behaves as a byte store; the device answer is a function of the bus history',
                         'Impl.koron records the implementation-defined choices (bits 3/5 after SCF/CCF and BIT n,(HL); '
                         'undocumented flags of block I/O; DDCB counts three opcode fetches; byte order of word stores)'],
@@ -757,7 +775,7 @@ PROPS = {
     'C05': {
         'targets': ['Z80.Props.C05'],
         'count': ALL_OBL + ['Z80/Proofs/Frame.lean', 'Z80/Props/C05.lean'],
-        'correspond': corr_slots(3, 40),
+        'correspond': corr_slots(3, 250),
         'assumptions': ['the ordered bus log (Memory.Get/Set, IO.In/Out with address and value) is part of the model state, so C01 equality covers it',
                         'the property compares multisets of accesses; the theorems fix the exact order, which implies it'],
         'explanation': 'bus log of Gen.Step = log of the reference for every state (C01); reference traffic characterised: sequential fetches, untaken forms, RMW, 16-bit wrap, port = C / n, no port access outside I/O instructions (all instructions)',
@@ -789,9 +807,10 @@ PROPS = {
         'explanation': 'cancellation is observed only between Steps (state = whole number of Steps); exhaustive exploration of the two-thread hand-off protocol (closed state set) shows no unordered read of ctxErr and no leaked watcher on any return path',
     },
     'C14': {
-        'targets': ['Z80.Props.C14'],
+        'targets': ['Z80.Props.C14', 'Z80.Props.C14Accept'],
+        'audit_extra': ['C14Accept'],
         'count': ALL_OBL + ['Z80/Proofs/Frame.lean', 'Z80/Props/C14.lean'],
-        'correspond': corr_slots(3, 40),
+        'correspond': corr_c14,
         'assumptions': ['DDCB/FDCB forms count three opcode fetches in this project (silicon: two); recorded in Impl.koron.ddcbM1'],
         'explanation': 'every Step without a pending request advances R by exactly the number of opcode fetches (1/2/3 by prefix) modulo 128 with bit 7 kept, I untouched, except LD I,A / LD R,A; LD A,I / LD A,R flags',
     },
